@@ -35,19 +35,19 @@ type Case struct {
 }
 
 type workerOut struct {
-	Prop       string         `json:"prop"`
-	Mode       string         `json:"mode"`
-	Runs       int            `json:"runs"`
-	NonTrivial int            `json:"nontrivial"`
-	SimS       float64        `json:"sim_s"`
-	Steps      int            `json:"steps"`
-	WallS      float64        `json:"wall_s"`
-	Stats      map[string]int `json:"stats"`
-	Samples    []string       `json:"samples"`
-	Failures   []Case         `json:"failures"`
-	FailCounts map[string]int `json:"fail_counts"`
+	Prop       string            `json:"prop"`
+	Mode       string            `json:"mode"`
+	Runs       int               `json:"runs"`
+	NonTrivial int               `json:"nontrivial"`
+	SimS       float64           `json:"sim_s"`
+	Steps      int               `json:"steps"`
+	WallS      float64           `json:"wall_s"`
+	Stats      map[string]int    `json:"stats"`
+	Samples    []string          `json:"samples"`
+	Failures   []Case            `json:"failures"`
+	FailCounts map[string]int    `json:"fail_counts"`
 	Hashes     map[string]string `json:"hashes,omitempty"`
-	Case       *Case          `json:"case,omitempty"`
+	Case       *Case             `json:"case,omitempty"`
 }
 
 func envInt(k string, def int64) int64 {
